@@ -353,7 +353,8 @@ package evaluator
 //@   requires wf(parser.Node(expr)) && storeOK()
 //@   ensures[C02 store] storeOK()
 //@   ensures[C10 scope-restored] e.scope == old(e.scope)
-//@   ensures[C12 map] err == nil ==> m != nil && is(callres("(*Evaluator).eval", 1, 0), *mapVal) && m == callres("(*Evaluator).eval", 1, 0).(*mapVal)
+//@   ensures[C12 non-nil] err == nil ==> m != nil
+//@   ensures[C12 map] err == nil ==> is(callres("(*Evaluator).eval", 1, 0), *mapVal) && m == callres("(*Evaluator).eval", 1, 0).(*mapVal)
 //@   ensures[C01 operand] ncalls("(*Evaluator).eval") == 1 && callarg("(*Evaluator).eval", 1, 1) == expr.Left
 //@   ensures[C02 error-no-value] err != nil ==> m == nil
 //@   modifies allbut evalFrame
